@@ -188,6 +188,18 @@ pub fn case(idx: u64, seed: u64, p: &Params, o: &mut CaseOut) {
             o.check(again == got, "distances-differ-on-second-call", || format!("source {s}: first {got:?} second {again:?}"));
             let cloned: Option<Vec<isize>> = cl.distances().map(<[isize]>::to_vec);
             o.check(cloned == got, "distances-differ-on-a-clone", || format!("source {s}: first {got:?} clone {cloned:?}"));
+            if got.is_some() {
+                // a third and a fourth call, and a clone taken from the used
+                // object (only without a negative circuit: with one, every
+                // further call relaxes it further, towards overflow)
+                let mut used = bfm.clone();
+                for nth in 3..=4 {
+                    let later: Option<Vec<isize>> = bfm.distances().map(<[isize]>::to_vec);
+                    o.check(later == got, "distances-differ-on-a-later-call", || format!("source {s}: first {got:?} call {nth}: {later:?}"));
+                }
+                let via_used: Option<Vec<isize>> = used.distances().map(<[isize]>::to_vec);
+                o.check(via_used == got, "distances-differ-on-a-clone-of-a-used-object", || format!("source {s}: first {got:?} clone of used {via_used:?}"));
+            }
         }
         match (&want, &got) {
             (Err(()), Some(g)) => {
